@@ -15,7 +15,8 @@ BUILD = os.path.join(VERIF, "build")
 REPLAYS = os.path.join(VERIF, "replays")
 EVIDENCE = os.path.join(VERIF, "evidence")
 KNOWN = os.path.join(VERIF, "known_findings.txt")
-COQ_TIMEOUT = int(os.environ.get("VERIF_COQ_TIMEOUT", "900"))
+COQ_TIMEOUT = int(os.environ.get("VERIF_COQ_TIMEOUT", "1500"))
+PERFILE_TIMEOUT = int(os.environ.get("VERIF_COQ_FILE_TIMEOUT", "400"))
 
 FORBIDDEN = re.compile(r"\b(Admitted|admit|Axiom|Axioms|Parameter|Parameters|Conjecture|Conjectures|"
                        r"Admit Obligations|bypass_check|Unset Guard Checking|Unset Positivity Checking|"
@@ -95,7 +96,9 @@ def coq_make(timeout=COQ_TIMEOUT, strict=False):
         rc, out = sh(lock + "coq_makefile -f _CoqProject -o Makefile", cwd=COQDIR, timeout=120)
         if rc != 0:
             _built["make"] = (False, out); return _built["make"]
-    rc, out = sh(lock + "make %s -j%d 2>&1" % ("" if strict else "-k", min(16, os.cpu_count() or 4)), cwd=COQDIR, timeout=timeout)
+    # every coqc is bounded: a diverging proof must not hold the build lock for everybody
+    rc, out = sh(lock + "make %s -j%d COQC='timeout %d coqc' 2>&1" % ("" if strict else "-k", min(16, os.cpu_count() or 4), PERFILE_TIMEOUT),
+                 cwd=COQDIR, timeout=timeout)
     _built["make"] = (rc == 0, out)
     return _built["make"]
 
